@@ -30,7 +30,7 @@ type c20Task struct {
 }
 
 func (t *c20Task) Ready() <-chan struct{} { return t.readyC }
-func (t *c20Task) String() string          { return t.name }
+func (t *c20Task) String() string         { return t.name }
 func (t *c20Task) Run(ctx context.Context) error {
 	vsched.Point("task:enter")
 	vsched.Obs("task-enter", "%s", t.name)
@@ -41,10 +41,15 @@ func (t *c20Task) Run(ctx context.Context) error {
 	case "early":
 		vsched.Obs("task-exit", "%s nil", t.name)
 		return nil
-	case "fail":
+	case "fail", "fail-ctx":
 		vsched.Point("task:working")
 		if ctx.Err() == nil {
 			vsched.Obs("task-exit", "%s error", t.name)
+			if t.behave == "fail-ctx" {
+				// A fatal error that happens to wrap context.Canceled (an inner operation of
+				// the task had its own context cancelled) while the server's context is live.
+				return fmt.Errorf("%s failed: %w", t.name, context.Canceled)
+			}
 			return errors.New(t.name + " failed")
 		}
 	}
@@ -76,6 +81,7 @@ func c20Cases() []c20Case {
 	add([]string{"fail", "slow"}, "")
 	add([]string{"fail", "slow"}, "TERM")
 	add([]string{"fail", "fail", "run"}, "")
+	add([]string{"fail-ctx", "slow"}, "")
 	add([]string{"early", "run"}, "HUP")
 	add([]string{"never-ready", "run"}, "TERM")
 	add([]string{"run", "early", "slow"}, "TERM")
@@ -206,7 +212,7 @@ func c20Scenario(c c20Case) *vsched.Scenario {
 func TestVerifC20Sched(t *testing.T) {
 	r := ev.Begin("C20", "sched")
 	defer r.End(t)
-	r.Rule = "executions = goroutine schedules within the deviation bound of the instrumented real Server.Serve (errgroup, readiness WaitGroup, signal task, terminator, recording sdnotify) supervising 2-3 fake tasks with behaviours {runs until cancelled, slow to stop, fails while working, returns nil early, never ready} and a signal thread {none, SIGTERM, SIGINT, SIGHUP} (9 cases); oracle on the ordered log: Serve returns only after every task's Run exited, returns the first failing task's error else nil, every terminate() read after observing a signal's cancellation = (signal != SIGHUP), READY=1 at most once and only after every task started and closed Ready, never if a task never becomes ready"
+	r.Rule = "executions = goroutine schedules within the deviation bound of the instrumented real Server.Serve (errgroup, readiness WaitGroup, signal task, terminator, recording sdnotify) supervising 2-3 fake tasks with behaviours {runs until cancelled, slow to stop, fails while working, fails with an error wrapping context.Canceled, returns nil early, never ready} and a signal thread {none, SIGTERM, SIGINT, SIGHUP} (10 cases); oracle on the ordered log: Serve returns only after every task's Run exited, returns the first failing task's error else nil, every terminate() read after observing a signal's cancellation = (signal != SIGHUP), READY=1 at most once and only after every task started and closed Ready, never if a task never becomes ready"
 	name := func(c c20Case) string { return c.Name }
 	exploreCases(t, r, c20Cases(), name, c20Scenario, exploreOpts{Bound: 2})
 	if r.Thorough() && r.Replay == nil {
